@@ -43,24 +43,21 @@ theorem Built.codeCost_eq {ws : List Nat} {en : List Nat} {dn : List (Nat × Nat
   have := List.mem_zipIdx hp
   rw [B.wordLen_eq (by simp; omega)]
 
-/-- optimality among code trees -/
-theorem huffTree_optimal {ws : List Nat} (hn : 0 < ws.length) {T : Tree}
-    (hT : huffTree ws = some T) {U : Tree} (hU : U.IsCodeTree ws.length) :
+/-- optimality among code trees (exact sums) -/
+theorem huffTree_optimal {ws : List Nat} {T : Tree}
+    (hT : huffTree exactOps ws = some T) {U : Tree} (hU : U.IsCodeTree ws.length) :
     T.wcost ws ≤ U.wcost ws := by
   have hlen : ws.zipIdx.length = ws.length := by simp
-  have hne : ws.zipIdx ≠ [] := by
-    intro h; rw [h] at hlen; simp at hlen; omega
   have hok := heapOK_zipIdx ws
-  obtain ⟨T', hT', hleaves, _⟩ := treeLoop_spec ws.length ws.zipIdx ws.length hok hlen.symm hne
   unfold huffTree at hT
-  rw [hT] at hT'; injection hT' with hT'; subst hT'
+  obtain ⟨hleaves, _⟩ := treeLoop_spec ws.length ws.zipIdx ws.length hok hlen.symm T hT
   have hids : ws.zipIdx.map (·.2) = List.range ws.length := by
     have := List.zipIdx_map_snd 0 ws
     simp [List.range_eq_range', this]
   have hTc : T.IsCodeTree ws.length := by
     unfold Tree.IsCodeTree; rw [← hids]; exact hleaves
   rw [Tree.wcost_eq_cost ws hTc, Tree.wcost_eq_cost ws hU]
-  refine treeLoop_optimal ws.length ws.zipIdx ws.length _ hok hlen.symm hne ?_ T hT U
+  refine treeLoop_optimal ws.length ws.zipIdx ws.length _ hok hlen.symm ?_ T hT U
     (by rw [hids]; exact hU)
   intro p hp
   obtain ⟨x, i⟩ := p
@@ -181,7 +178,7 @@ theorem exists_tree_of_prefix_free : ∀ (D : Nat) (S : List Nat) (c : Nat → L
 
 /-- optimality among all prefix-free codes -/
 theorem huffTree_optimal_codes {ws : List Nat} (hn : 0 < ws.length) {T : Tree}
-    (hT : huffTree ws = some T) {c : Nat → List Bool} (hc : PrefixFree ws.length c) :
+    (hT : huffTree exactOps ws = some T) {c : Nat → List Bool} (hc : PrefixFree ws.length c) :
     T.wcost ws ≤ assignCost ws c := by
   -- a bound on all codeword lengths
   let D := ((List.range ws.length).map (fun s => (c s).length)).sum
@@ -198,7 +195,7 @@ theorem huffTree_optimal_codes {ws : List Nat} (hn : 0 < ws.length) {T : Tree}
       have : (List.range ws.length).length = 0 := by rw [h]; rfl
       rw [List.length_range] at this; omega) List.nodup_range hD
     (fun s1 h1 s2 h2 hp => hc s1 s2 (by simpa using h1) (by simpa using h2) hp)
-  refine Nat.le_trans (huffTree_optimal hn hT (U := U) hU) ?_
+  refine Nat.le_trans (huffTree_optimal hT (U := U) hU) ?_
   simp only [Tree.wcost, assignCost]
   apply sum_map_le
   intro p hp
